@@ -109,6 +109,10 @@ def run_shard(desc):
     if part == "dot":
         batch(sh, f"$[?@.l {op} @.r]", obj_doc(ps))
         batch(sh, f"$[?@.l{op}@.r]", obj_doc(ps))
+        # the same comparison under a negation: `!` is the classical complement of the table entry, not
+        # the "opposite" operator (the ordering is partial)
+        batch(sh, f"$[?!(@.l {op} @.r)]", obj_doc(ps))
+        batch(sh, f"$[?!(@.l {op} @.r) && !(@.r {op} @.l)]", obj_doc(ps))
     elif part == "bracket":
         batch(sh, f"$[?@['l'] {op} @[\"r\"]]", obj_doc(ps))
     elif part == "index":
